@@ -80,9 +80,9 @@ def get(cls, *a, **k):
 
 class CEnum(Item):
     PREFIX = "K"
-    def _init(self, tag, count, dflt=0):
-        self.tag = tag; self.count = count; self.dflt = dflt; self.portable = (tag == "u8"); self.default = True
-    def spec(self): return "cenum(%s,%d,d%d)" % (self.tag, self.count, self.dflt)
+    def _init(self, tag, count, dflt=0, discs=None):
+        self.tag = tag; self.count = count; self.dflt = dflt; self.portable = (tag == "u8"); self.default = True; self.discs = discs
+    def spec(self): return "cenum(%s,%d,d%d%s)" % (self.tag, self.count, self.dflt, "" if self.discs is None else ";=" + ".".join(str(x) for x in self.discs))
 
 class SStruct(Item):
     PREFIX = "P"
@@ -152,15 +152,18 @@ def default_glue(item, sized):
 
 def emit_cenum(it):
     vs = []
+    dv = it.discs if it.discs is not None else list(range(it.count))
     for i in range(it.count):
-        vs.append(("#[default] " if i == it.dflt else "") + vname(i))
-    arms = "".join("            %d => %s::%s,\n" % (i, it.ident, vname(i)) for i in range(it.count))
+        vs.append(("#[default] " if i == it.dflt else "") + vname(i) + ("" if it.discs is None else " = %d" % it.discs[i]))
+    arms = "".join("            %d => %s::%s,\n" % (dv[i], it.ident, vname(i)) for i in range(it.count))
+    discs_rs = "None" if it.discs is None else "Some(vec![%s])" % ", ".join(str(x) for x in it.discs)
+    valid_rs = " || ".join("raw as u128 == %d" % x for x in dv) if it.discs is not None else "(raw as usize) < %d" % it.count
     return f"""
 {flat_attr(it, True, it.tag)}
 #[derive(Clone, Copy, PartialEq, PartialOrd)]
 pub enum {it.ident} {{ {", ".join(vs)} }}
 impl Node for {it.ident} {{
-    fn desc() -> Desc {{ Desc::CEnum {{ tag: {TAG_SIZE[it.tag]}, count: {it.count}, default: {it.dflt} }} }}
+    fn desc() -> Desc {{ Desc::CEnum {{ tag: {TAG_SIZE[it.tag]}, count: {it.count}, default: {it.dflt}, discs: {discs_rs} }} }}
     fn read(&self) -> Value {{ Value::Scalar(*self as {it.tag} as u128) }}
     unsafe fn emplace_value_unchecked<'a>(bytes: &'a mut [u8], v: &Value, _k: Kind) -> Result<&'a mut Self, Error> {{
         <Self as SizedNode>::from_value(v).emplace_unchecked(bytes)
@@ -168,7 +171,7 @@ impl Node for {it.ident} {{
     fn walk(&self, w: &mut Walk) {{
         w.obj(self, "cenum");
         let raw = unsafe {{ *(self as *const Self as *const {it.tag}) }};
-        if raw as usize >= {it.count} {{ w.problems.push(format!("c-like enum holds raw tag {{}}", raw)); }}
+        if !({valid_rs}) {{ w.problems.push(format!("c-like enum holds raw tag {{}}", raw)); }}
     }}
     fn apply(&mut self, path: &[usize], op: &Op) -> OpOut {{ sized_self_op(self, path, op) }}
 {default_glue(it, True)}}}
@@ -424,7 +427,8 @@ def catalog(thorough):
         return t
     # c-like enums
     K = [get(CEnum, "u8", 2, 1), get(CEnum, "u8", 3, 0), get(CEnum, "u16", 3, 2), get(CEnum, "u32", 2, 0), get(CEnum, "u8", 1, 0),
-         get(CEnum, "u8", 256, 255), get(CEnum, "u8", 255, 0)]   # as many variants as the tag can count, and one less
+         get(CEnum, "u8", 256, 255), get(CEnum, "u8", 255, 0),   # as many variants as the tag can count, and one less
+         get(CEnum, "u8", 3, 1, [1, 5, 9]), get(CEnum, "u16", 2, 0, [7, 300])]   # explicit discriminants
     if thorough: K += [get(CEnum, "u16", 4, 1), get(CEnum, "u32", 4, 3)]
     for k in K: add(k)
     K2, K3, K16, K32 = K[0], K[1], K[2], K[3]
